@@ -158,6 +158,9 @@ func (r *fakeRows) Close() error {
 	return nil
 }
 func (r *fakeRows) Next(dest []driver.Value) error {
+	if r.set.BreakAfter > 0 && r.pos >= r.set.BreakAfter {
+		return errRowsBroken
+	}
 	if r.pos >= len(r.set.Rows) {
 		return io.EOF
 	}
